@@ -3900,6 +3900,115 @@ Proof.
 Qed.
 
 (* ------------------------------------------------------------------ *)
+(* clock parity (needed to read the active states off tx_after)        *)
+(* ------------------------------------------------------------------ *)
+
+Lemma tick_nth_gen : forall (i : nat) (d : N) cl k x,
+  nth x (map (fun p : nat * N => if Nat.eqb (fst p) i then (snd p + d)%N else snd p)
+             (combine (seq k (length cl)) cl)) 0%N
+  = if Nat.eqb (k + x) i && (x <? length cl) then (nth x cl 0 + d)%N else nth x cl 0%N.
+Proof.
+  intros i d cl. induction cl as [|a r IH]; intros k x.
+  - cbn. destruct x; rewrite andb_false_r; reflexivity.
+  - cbn [length seq combine map]. destruct x as [|x'].
+    + cbn [nth fst snd]. rewrite Nat.add_0_r. cbn. rewrite andb_true_r. reflexivity.
+    + cbn [nth]. rewrite IH. replace (S k + x') with (k + S x') by lia.
+      replace (S x' <? S (length r)) with (x' <? length r) by reflexivity. reflexivity.
+Qed.
+
+Lemma tick_at_length : forall cl i d, length (tick_at cl i d) = length cl.
+Proof.
+  intros cl i d. unfold tick_at. rewrite map_length, combine_length, seq_length. lia.
+Qed.
+
+Lemma tick_at_parity : forall cl i d x, x < length cl ->
+  N.odd (nth x (tick_at cl i d) 0%N) = xorb (N.odd (nth x cl 0%N)) (Nat.eqb x i && N.odd d).
+Proof.
+  intros cl i d x Hx. unfold tick_at. rewrite tick_nth_gen. cbn [plus].
+  replace (x <? length cl) with true by (symmetry; apply Nat.ltb_lt; exact Hx).
+  rewrite andb_true_r. destruct (Nat.eqb x i).
+  - rewrite N.odd_add. reflexivity.
+  - rewrite xorb_false_r. reflexivity.
+Qed.
+
+Lemma fold_keep_length : forall (F : list N -> nat -> list N),
+  (forall c name, length (F c name) = length c) ->
+  forall l cl, length (fold_left F l cl) = length cl.
+Proof.
+  intros F HL l. induction l as [|a r IH]; intros cl; [reflexivity|].
+  cbn [fold_left]. rewrite IH. apply HL.
+Qed.
+
+Lemma fold_flip_parity : forall (F : list N -> nat -> list N) (flip : nat -> bool),
+  (forall c name, length (F c name) = length c) ->
+  (forall c name x, x < length c ->
+     N.odd (nth x (F c name) 0%N) = xorb (N.odd (nth x c 0%N)) (Nat.eqb x name && flip name)) ->
+  forall l cl x, NoDup l -> x < length cl ->
+    N.odd (nth x (fold_left F l cl) 0%N) = xorb (N.odd (nth x cl 0%N)) (mem x l && flip x).
+Proof.
+  intros F flip HL HP l. induction l as [|a r IH]; intros cl x Hnd Hx.
+  - cbn. rewrite xorb_false_r. reflexivity.
+  - inversion Hnd as [|? ? Ha Hr]; subst. cbn [fold_left].
+    assert (Hx' : x < length (F cl a)) by (rewrite HL; exact Hx).
+    rewrite (IH (F cl a) x Hr Hx'), (HP cl a x Hx). unfold mem. cbn [existsb]. fold (mem x r).
+    destruct (Nat.eqb x a) eqn:E.
+    + apply Nat.eqb_eq in E. subst a.
+      replace (mem x r) with false by (symmetry; apply mem_false; exact Ha).
+      cbn. rewrite xorb_false_r. reflexivity.
+    + cbn. rewrite xorb_false_r. reflexivity.
+Qed.
+
+Definition parity (s : st) : Prop :=
+  length (clock s) = length (sc s) /\
+  forall x, x < length (clock s) -> N.odd (nth x (clock s) 0%N) = mem x (active s).
+
+Lemma set_active_clock_parity : forall scm cl prev called target,
+  NoDup prev -> NoDup target ->
+  (forall x, x < length cl -> N.odd (nth x cl 0%N) = mem x prev) ->
+  length (set_active_clock scm cl prev called target) = length cl /\
+  forall x, x < length cl ->
+    N.odd (nth x (set_active_clock scm cl prev called target) 0%N) = mem x target.
+Proof.
+  intros scm cl prev called target Hp Ht Hpar. unfold set_active_clock.
+  set (F1 := fun (c : list N) (name : nat) =>
+               if negb (mem name prev) then tick_at c name 1
+               else if mem name called && s_multi (sget scm name) then tick_at c name 2 else c).
+  set (F2 := fun (c : list N) (name : nat) => tick_at c name 1).
+  assert (H1L : forall c name, length (F1 c name) = length c).
+  { intros c name. unfold F1. destruct (negb (mem name prev)); [apply tick_at_length|].
+    destruct (mem name called && s_multi (sget scm name)); [apply tick_at_length | reflexivity]. }
+  assert (H1P : forall c name x, x < length c ->
+            N.odd (nth x (F1 c name) 0%N)
+            = xorb (N.odd (nth x c 0%N)) (Nat.eqb x name && negb (mem name prev))).
+  { intros c name x Hx. unfold F1. destruct (negb (mem name prev)).
+    - rewrite tick_at_parity by exact Hx. reflexivity.
+    - rewrite andb_false_r, xorb_false_r.
+      destruct (mem name called && s_multi (sget scm name)); [|reflexivity].
+      rewrite tick_at_parity by exact Hx. cbn. rewrite andb_false_r, xorb_false_r. reflexivity. }
+  assert (H2L : forall c name, length (F2 c name) = length c) by (intros; apply tick_at_length).
+  assert (H2P : forall c name x, x < length c ->
+            N.odd (nth x (F2 c name) 0%N)
+            = xorb (N.odd (nth x c 0%N)) (Nat.eqb x name && (fun _ : nat => true) name)).
+  { intros c name x Hx. unfold F2. rewrite tick_at_parity by exact Hx. reflexivity. }
+  assert (Hd : NoDup (diff prev target)) by (apply NoDup_filter; exact Hp).
+  assert (Hl1 : length (fold_left F1 target cl) = length cl) by (apply fold_keep_length; exact H1L).
+  split.
+  - rewrite (fold_keep_length F2 H2L). exact Hl1.
+  - intros x Hx.
+    rewrite (fold_flip_parity F2 (fun _ => true) H2L H2P _ _ x Hd) by (rewrite Hl1; exact Hx).
+    rewrite (fold_flip_parity F1 (fun n => negb (mem n prev)) H1L H1P _ _ x Ht Hx).
+    rewrite (Hpar x Hx), andb_true_r.
+    assert (Hmd : mem x (diff prev target) = mem x prev && negb (mem x target)).
+    { destruct (mem x (diff prev target)) eqn:E.
+      - apply mem_In, diff_In in E. destruct E as [E1 E2]. apply mem_In in E1. apply mem_false in E2.
+        rewrite E1, E2. reflexivity.
+      - destruct (mem x prev) eqn:E1; [|reflexivity]. destruct (mem x target) eqn:E2; [reflexivity|].
+        exfalso. apply mem_false in E. apply E. apply diff_In.
+        apply mem_In in E1. apply mem_false in E2. tauto. }
+    rewrite Hmd. destruct (mem x prev), (mem x target); reflexivity.
+Qed.
+
+(* ------------------------------------------------------------------ *)
 (* per-step theorems (C07)                                             *)
 (* ------------------------------------------------------------------ *)
 
@@ -4517,6 +4626,89 @@ Lemma ord_ok_slice : forall scm tp h1 h2 t,
 Proof. intros scm tp h1 h2 t H. unfold ord_ok. rewrite H. tauto. Qed.
 
 (* ------------------------------------------------------------------ *)
+(* C07 (j) against judged_codes, for veto-free auto transitions        *)
+(* ------------------------------------------------------------------ *)
+
+Lemma run_tx_parity : forall s mu s' r,
+  good s -> NoDup (active s) -> parity s -> run_tx s mu = (s', r) -> parity s'.
+Proof.
+  intros s mu s' r G Hnd [P1 P2] H.
+  destruct (run_tx_outcome _ _ _ _ G H)
+    as (negs & fins & canceled & tgt1 & _ & C & _ & _ & _ & _ & _ & _ & _ & O).
+  destruct C as (Csc & _). unfold parity. rewrite Csc.
+  destruct O as [(_ & _ & _ & _ & _ & _ & Hc & Ha)|(rec & Rb & [N|A])].
+  - rewrite Hc, Ha. split; assumption.
+  - destruct N as (_ & _ & Hc & Ha & _). rewrite Hc, Ha. split; assumption.
+  - destruct A as (_ & _ & _ & Ha & Hc & Hs & _ & _ & _ & Hn & _).
+    rewrite Hc, Ha, Hs.
+    destruct (set_active_clock_parity (sc s) (clock s) (active s) (mu_called mu) (tx_target rec)
+                Hnd Hn P2) as [Y1 Y2].
+    split; [rewrite Y1; exact P1|]. intros x Hx. apply Y2. rewrite Y1 in Hx. exact Hx.
+Qed.
+
+Definition no_veto_in (hs : list hlentry) : Prop :=
+  forall h, In h hs -> is_final_key (hl_key h) = false -> hl_ret h = true.
+
+Lemma judged_codes_step : forall s mu s' r rec,
+  good s -> NoDup (active s) -> parity s ->
+  (mu_auto mu = true -> mu_type mu = MAdd /\ mu_check mu = false /\
+                        forall x, In x (mu_called mu) -> x < length (sc s)) ->
+  run_tx s mu = (s', r) -> txs s' = rec :: txs s ->
+  no_veto_in (slice (rev (hlog s')) (tx_hfrom rec) (tx_hto rec)) ->
+  judged_codes (sc s) (topo s) (rev (hlog s')) rec = [].
+Proof.
+  intros s mu s' r rec G Hnd Hpar Hau H Htx Hnv.
+  pose proof (run_tx_parity _ _ _ _ G Hnd Hpar H) as [P1' P2'].
+  destruct (run_tx_outcome _ _ _ _ G H)
+    as (negs & fins & canceled & tgt1 & L & C & _ & _ & _ & _ & _ & _ & _ & O).
+  destruct C as (Csc & _).
+  destruct O as [(_ & Hx & _)|(rec' & Rb & O)].
+  { rewrite Hx in Htx. exfalso. eapply cons_neq_self. exact Htx. }
+  assert (rec' = rec).
+  { destruct Rb as (Hx & _). rewrite Hx in Htx. inversion Htx. reflexivity. }
+  subst rec'.
+  assert (L2 : hlog s' = (fins ++ negs) ++ hlog s) by (rewrite L, app_assoc; reflexivity).
+  pose proof Rb as (_ & _ & _ & Hca & Hta & _ & _ & _ & Hab & Hfrom & Hto & _).
+  assert (Hs : slice (rev (hlog s')) (tx_hfrom rec) (tx_hto rec) = rev (fins ++ negs)).
+  { rewrite Hfrom, Hto, L2. apply (slice_rev_mid hlentry [] (fins ++ negs) (hlog s)). }
+  assert (Haf : tx_after rec = clock s').
+  { destruct O as [N|A].
+    - destruct N as (_ & _ & Hc & _ & Ht & _). congruence.
+    - destruct A as (_ & _ & _ & _ & Hc & _). congruence. }
+  unfold judged_codes. rewrite Hta. destruct (mu_auto mu) eqn:Em; [|reflexivity]. cbn [negb].
+  destruct (Hau eq_refl) as (Hty & Hck & Hlt).
+  rewrite Hs in *.
+  replace (filter (fun h => negb (is_final_key (hl_key h)) && negb (hl_ret h)) (rev (fins ++ negs)))
+    with (@nil hlentry).
+  2:{ symmetry. apply filter_none. intros h Hh.
+      destruct (is_final_key (hl_key h)) eqn:Ef; [reflexivity|].
+      rewrite (Hnv h Hh Ef). reflexivity. }
+  cbn [existsb].
+  rewrite Hca, Hab.
+  rewrite (filter_all_true _ (fun x : nat => negb false) (mu_called mu)) by reflexivity.
+  set (joint := resolve (sc s) (topo s) (active s) MAdd (mu_called mu)).
+  set (clean := filter (fun x => mem x joint) (mu_called mu)).
+  replace (forallb _ clean) with true; [reflexivity|].
+  symmetry. apply forallb_forall. intros x Hx.
+  destruct (mem x (resolve (sc s) (topo s) (active s) MAdd clean)) eqn:Ee; [|reflexivity].
+  cbn [negb orb].
+  assert (Hact : active s' = resolve (sc s) (topo s) (active s) MAdd clean).
+  { apply (judged_one_by_one_step_lemma s mu s' r (fins ++ negs) G Em Hty Hck H L2) with (x := x).
+    - intros h Hh Hf. apply Hnv; [apply in_rev; rewrite rev_involutive; exact Hh | exact Hf].
+    - exact Hx. }
+  apply mem_In. apply filter_In.
+  assert (Hxl : x < length (clock s')).
+  { rewrite P1', Csc. apply Hlt. apply filter_In in Hx. tauto. }
+  rewrite Haf. split; [apply in_seq; lia|].
+  rewrite (P2' x Hxl), Hact. exact Ee.
+Qed.
+
+Lemma judged_codes_slice : forall scm tp h1 h2 t,
+  slice h1 (tx_hfrom t) (tx_hto t) = slice h2 (tx_hfrom t) (tx_hto t) ->
+  judged_codes scm tp h1 t = judged_codes scm tp h2 t.
+Proof. intros scm tp h1 h2 t H. unfold judged_codes. rewrite H. reflexivity. Qed.
+
+(* ------------------------------------------------------------------ *)
 (* the run invariant                                                   *)
 (* ------------------------------------------------------------------ *)
 
@@ -4524,7 +4716,9 @@ Definition rec_ok (s : st) (t : txrec) : Prop :=
   tx_hto t <= length (hlog s) /\
   c05_local_codes (sc s) (bindings s) (rev (hlog s)) t = [] /\
   ord_ok (sc s) (topo s) (rev (hlog s)) t /\
-  consulted_codes (sc s) (topo s) (bindings s) (rev (hlog s)) t = [].
+  consulted_codes (sc s) (topo s) (bindings s) (rev (hlog s)) t = [] /\
+  (no_veto_in (slice (rev (hlog s)) (tx_hfrom t) (tx_hto t)) ->
+   judged_codes (sc s) (topo s) (rev (hlog s)) t = []).
 
 Definition step_ok (scm : schema) (hl : list nat) (t n : txrec) : Prop :=
   match (if triggers_auto hl t then auto_candidates scm (tx_target t) else []) with
@@ -4553,7 +4747,7 @@ Definition pend (scm : schema) (hl : list nat) (l : list txrec) (q : list mutati
 
 Definition Iloop (sch : schema) (tp hl : list nat) (bs : list (list hkey)) (s : st) : Prop :=
   topo s = tp /\ sc s = sch /\ health s = hl /\ bindings s = bs /\
-  good s /\ NoDup (active s) /\ Forall (rec_ok s) (txs s) /\
+  good s /\ (NoDup (active s) /\ parity s) /\ Forall (rec_ok s) (txs s) /\
   chron_ok sch hl (rev (txs s)) /\ (crashed s = false -> pend sch hl (txs s) (queue s)).
 
 Definition fr (s s' : st) : Prop := keeps s s' /\ actions s' = actions s /\ hlog s' = hlog s.
@@ -4568,7 +4762,10 @@ Proof.
     (keeps_bindings _ _ K), (keeps_active _ _ K), (keeps_txs _ _ K), (keeps_crashed _ _ K).
   split; [exact I0|]. split; [exact I1|]. split; [exact I2|]. split; [exact I3|].
   split; [eapply keeps_good; [exact K | exact G | rewrite A; apply G]|].
-  split; [exact Hnd|]. split; [|split; [exact Hc | intros Hx; apply Hq; [exact Hx | apply Hp; exact Hx]]].
+  split.
+  { split; [apply Hnd|]. destruct Hnd as [_ [P1 P2]]. unfold parity.
+    rewrite (keeps_clock _ _ K), (keeps_sc _ _ K), (keeps_active _ _ K). split; assumption. }
+  split; [|split; [exact Hc | intros Hx; apply Hq; [exact Hx | apply Hp; exact Hx]]].
   eapply Forall_impl; [|exact Hr]. intros t [Y1 Y2]. unfold rec_ok.
   rewrite L, (keeps_sc _ _ K), (keeps_bindings _ _ K), (keeps_topo _ _ K). tauto.
 Qed.
@@ -4590,8 +4787,10 @@ Lemma rec_ok_ext : forall s s' x t,
   rec_ok s t -> hlog s' = x ++ hlog s -> sc s' = sc s -> bindings s' = bindings s ->
   topo s' = topo s -> rec_ok s' t.
 Proof.
-  intros s s' x t (Y1 & Y2 & Y3 & Y4) L Hs Hb Ht. unfold rec_ok. rewrite L, Hs, Hb, Ht.
-  split; [|split; [|split]].
+  intros s s' x t (Y1 & Y2 & Y3 & Y4 & Y5) L Hs Hb Ht. unfold rec_ok. rewrite L, Hs, Hb, Ht.
+  split; [|split; [|split; [|split]]].
+  5:{ rewrite (slice_rev_ext _ x (hlog s) _ _ Y1). intros Hnv. rewrite <- (Y5 Hnv).
+      apply judged_codes_slice. apply slice_rev_ext. exact Y1. }
   - rewrite app_length. lia.
   - rewrite <- Y2. apply c05_local_codes_slice. apply slice_rev_ext. exact Y1.
   - eapply ord_ok_slice; [|exact Y3]. symmetry. apply slice_rev_ext. exact Y1.
@@ -4609,6 +4808,17 @@ Proof.
       apply IH; assumption.
 Qed.
 
+Lemma lastc_lt : forall scm hl l x, In x (lastc scm hl l) -> x < length scm.
+Proof.
+  intros scm hl l x H. unfold lastc in H. destruct l as [|t r]; [contradiction|].
+  destruct (triggers_auto hl t); [|contradiction].
+  unfold auto_candidates, all_states in H. apply filter_In in H. destruct H as [H _].
+  apply in_seq in H. lia.
+Qed.
+
+Lemma nth_map_zero : forall (A : Type) (l : list A) x, nth x (map (fun _ => 0%N) l) 0%N = 0%N.
+Proof. intros A l. induction l as [|a r IH]; intros [|x]; cbn; try reflexivity. apply IH. Qed.
+
 Definition popped (s : st) (mu : mutation) (rest : list mutation) : st :=
   let s0 := set_queue s rest in
   if (0 <? mu_qtick mu)%N then set_ticks s0 (qtick s0 + 1)%N (qpending s0 - 1)%N else s0.
@@ -4624,11 +4834,14 @@ Lemma drain_step_inv : forall sch tp hl bs s mu rest s2 r,
   Iloop sch tp hl bs s -> crashed s = false -> queue s = mu :: rest ->
   run_tx (popped s mu rest) mu = (s2, r) -> Iloop sch tp hl bs s2.
 Proof.
-  intros sch tp hl bs s mu rest s2 r (I0 & I1 & I2 & I3 & G & Hnd & Hr & Hc & Hp) Hcr Hq H.
+  intros sch tp hl bs s mu rest s2 r (I0 & I1 & I2 & I3 & G & [Hnd Hpa] & Hr & Hc & Hp) Hcr Hq H.
   destruct (popped_fr s mu rest) as [(K & A & L) Hq1].
   set (s1 := popped s mu rest) in *.
   assert (G1 : good s1) by (eapply keeps_good; [exact K | exact G | rewrite A; apply G]).
   assert (Hnd1 : NoDup (active s1)) by (rewrite (keeps_active _ _ K); exact Hnd).
+  assert (Hpa1 : parity s1).
+  { destruct Hpa as [P1 P2]. unfold parity.
+    rewrite (keeps_clock _ _ K), (keeps_sc _ _ K), (keeps_active _ _ K). split; assumption. }
   specialize (Hp Hcr). rewrite Hq in Hp.
   (* what the queue head is *)
   assert (Hhead : no_auto rest /\
@@ -4642,6 +4855,7 @@ Proof.
       split; [rewrite Hrest'; exact Hn | exact Hmu']. }
   destruct Hhead as [Hrest Hmu].
   pose proof (run_tx_NoDup_active _ _ _ _ G1 Hnd1 H) as Hnd2.
+  pose proof (run_tx_parity _ _ _ _ G1 Hnd1 Hpa1 H) as Hpa2.
   destruct (run_tx_outcome _ _ _ _ G1 H)
     as (negs & fins & canceled & tgt1 & L2 & C2 & G2 & _ & _ & _ & _ & _ & _ & O).
   destruct C2 as (C2a & C2b & C2c & _ & C2e & _).
@@ -4655,7 +4869,7 @@ Proof.
   { eapply Forall_impl; [|exact Hr]. intros t Ht. eapply rec_ok_ext; eassumption. }
   unfold Iloop. rewrite Ht2, Hs2, Hh2, Hb2.
   split; [exact I0|]. split; [exact I1|]. split; [exact I2|]. split; [exact I3|]. split; [exact G2|].
-  split; [exact Hnd2|].
+  split; [split; [exact Hnd2 | exact Hpa2]|].
   destruct O as [(Hcr2 & Htx2 & _)|(rec & Rb & O)].
   - (* crash *)
     rewrite Htx2, (keeps_txs _ _ K).
@@ -4670,10 +4884,18 @@ Proof.
       assert (Hmt : mu_auto mu = true -> mu_type mu = MAdd).
       { intros Hx. destruct (lastc sch hl (txs s)); [congruence | rewrite Hmu; reflexivity]. }
       pose proof (consulted_step_lemma _ _ _ _ _ G1 Hnd1 Hmt H Htx2') as Y4.
+      assert (Hmj : mu_auto mu = true -> mu_type mu = MAdd /\ mu_check mu = false /\
+                      forall x, In x (mu_called mu) -> x < length (sc s1)).
+      { intros Hx. rewrite (keeps_sc _ _ K), I1.
+        destruct (lastc sch hl (txs s)) as [|c cs] eqn:El; [congruence|].
+        rewrite Hmu. split; [reflexivity|]. split; [reflexivity|]. cbn [mu_called auto_mut].
+        intros x Hin. rewrite <- El in Hin. apply lastc_lt in Hin. exact Hin. }
+      pose proof (judged_codes_step _ _ _ _ _ G1 Hnd1 Hpa1 Hmj H Htx2') as Y5.
       unfold rec_ok. rewrite Hs2, Hb2, Ht2.
       rewrite (keeps_sc _ _ K), (keeps_bindings _ _ K) in Y1.
       rewrite (keeps_sc _ _ K), (keeps_topo _ _ K) in Y3.
-      rewrite (keeps_sc _ _ K), (keeps_topo _ _ K), (keeps_bindings _ _ K) in Y4. tauto.
+      rewrite (keeps_sc _ _ K), (keeps_topo _ _ K), (keeps_bindings _ _ K) in Y4.
+      rewrite (keeps_sc _ _ K), (keeps_topo _ _ K) in Y5. tauto.
     + cbn [rev]. destruct (txs s) as [|t older] eqn:Et.
       * cbn. tauto.
       * cbn [rev] in *. apply chron_ok_snoc; [exact Hc|].
@@ -4838,7 +5060,10 @@ Lemma init_Iloop : forall sch tp hl ex bs ql acts,
 Proof.
   intros sch tp hl ex bs ql acts F. unfold Iloop. cbn.
   split; [reflexivity|]. split; [reflexivity|]. split; [reflexivity|]. split; [reflexivity|].
-  split; [unfold good; cbn; tauto|]. split; [constructor|]. split; [constructor|].
+  split; [unfold good; cbn; tauto|]. split.
+  { split; [constructor|]. unfold parity. cbn. split; [apply map_length|].
+    intros x _. rewrite nth_map_zero. reflexivity. }
+  split; [constructor|].
   split; [exact I|]. intros _. unfold pend. cbn. constructor.
 Qed.
 
@@ -5250,3 +5475,318 @@ Proof.
   intros s mu s' r new G Hm Hty Hck H L Hnv joint clean expected x Hx Hxe.
   rewrite (judged_one_by_one_step_lemma s mu s' r new G Hm Hty Hck H L Hnv x Hx). exact Hxe.
 Qed.
+
+(* ================================================================== *)
+(* C05b on whole runs, witnesses of the partial-acceptance defects     *)
+(* ================================================================== *)
+
+Lemma flat_map_nil : forall (A B : Type) (f : A -> list B) l,
+  (forall x, In x l -> f x = []) -> flat_map f l = [].
+Proof.
+  intros A B f l H. induction l as [|x r IH]; [reflexivity|].
+  cbn. rewrite (H x (or_introl eq_refl)), IH; [reflexivity|].
+  intros y Hy. apply H. right. exact Hy.
+Qed.
+
+Lemma consulted_ok_lemma : forall sch tp hl ex bs ql acts cs fuel,
+  fault_free acts ->
+  forall t, In t (tr_txs (run fuel (init_st sch tp hl ex bs ql acts) cs)) ->
+    consulted_codes sch tp bs (tr_hlog (run fuel (init_st sch tp hl ex bs ql acts) cs)) t = [].
+Proof.
+  intros sch tp hl ex bs ql acts cs fuel F. rewrite run_unfold.
+  destruct (run_calls_top fuel (init_st sch tp hl ex bs ql acts) cs []) as [[s1 obs] ok] eqn:E.
+  cbn. intros t Ht. apply in_rev in Ht.
+  destruct (run_final_inv _ _ _ _ _ _ _ _ _ _ _ _ F E) as [I _].
+  destruct I as (I0 & I1 & _ & I3 & _ & _ & Hr & _).
+  rewrite Forall_forall in Hr. destruct (Hr t Ht) as (_ & _ & _ & Y & _). rewrite I0, I1, I3 in Y. exact Y.
+Qed.
+
+Lemma consulted_all_ok_lemma : forall sch tp hl ex bs ql acts cs fuel,
+  fault_free acts ->
+  flat_map (consulted_codes sch tp bs (tr_hlog (run fuel (init_st sch tp hl ex bs ql acts) cs)))
+           (tr_txs (run fuel (init_st sch tp hl ex bs ql acts) cs)) = [].
+Proof.
+  intros sch tp hl ex bs ql acts cs fuel F. apply flat_map_nil. intros t Ht.
+  apply consulted_ok_lemma; assumption.
+Qed.
+
+Lemma consulted_nonauto_ok_lemma : forall sch tp hl ex bs ql acts cs fuel,
+  fault_free acts ->
+  flat_map (consulted_codes sch tp bs (tr_hlog (run fuel (init_st sch tp hl ex bs ql acts) cs)))
+           (filter (fun t => negb (tx_auto t))
+                   (tr_txs (run fuel (init_st sch tp hl ex bs ql acts) cs))) = [].
+Proof.
+  intros sch tp hl ex bs ql acts cs fuel F. apply flat_map_nil. intros t Ht.
+  apply filter_In in Ht. apply consulted_ok_lemma; tauto.
+Qed.
+
+(* per step, the two readings asked for *)
+Lemma consulted_step_nonauto_lemma : forall s mu s' r rec,
+  good s -> NoDup (active s) -> mu_auto mu = false ->
+  run_tx s mu = (s', r) -> txs s' = rec :: txs s ->
+  tx_accepted rec && negb (tx_check rec) = true ->
+  consulted_codes (sc s) (topo s) (bindings s) (rev (hlog s')) rec = [].
+Proof.
+  intros s mu s' r rec G Hnd Hm H Htx _.
+  eapply consulted_step_lemma; try eassumption. intros Hx. congruence.
+Qed.
+
+Lemma consulted_step_auto_lemma : forall s mu s' r rec,
+  good s -> NoDup (active s) -> mu_auto mu = true -> mu_type mu = MAdd ->
+  run_tx s mu = (s', r) -> txs s' = rec :: txs s ->
+  consulted_codes (sc s) (topo s) (bindings s) (rev (hlog s')) rec = [].
+Proof.
+  intros s mu s' r rec G Hnd Hm Hty H Htx.
+  eapply consulted_step_lemma; try eassumption. intros _. exact Hty.
+Qed.
+
+Definition wx_mk (au mu : bool) (ad rem : list nat) : sdef :=
+  {| s_auto := au; s_multi := mu; s_require := []; s_add := ad; s_remove := rem; s_after := [] |}.
+
+(* 591: 0 Sa (Auto, Add Sc), 1 Sb (Auto, Remove Sc), 2 Sc, 3 Sd, 4 Exception.
+   Add Sd; the auto mutation calls Sa, Sb; first resolution [Sa; Sd; Sb] (Sb
+   removes Sc); SbEnter vetoes; the re-resolution with Sa alone brings Sc in:
+   ScEnter (bound) was never consulted *)
+Lemma reresolved_refuted_lemma :
+  exists (sch : schema) (order : list nat) (bs : list (list hkey)) (acts : list haction)
+         (cs : list api_call),
+    let tp := topo_sort sch order in
+    let tr := run 100 (init_st sch tp [] 4 bs 1000 acts) cs in
+    fault_free acts /\ tr_fuel_ok tr = true /\ tr_crashed tr = false /\
+    map tx_auto (tr_txs tr) = [false; true] /\ map tx_target (tr_txs tr) = [[3]; [0; 3; 2]] /\
+    map (fun h => (hl_key h, hl_ret h)) (tr_hlog tr) = [(HEnter 1, false)] /\
+    flat_map (reresolved_codes sch tp bs (tr_hlog tr)) (tr_txs tr) = [591%N] /\
+    c05b_codes sch tp bs tr = [591%N].
+Proof.
+  exists [wx_mk true false [2] []; wx_mk true false [] [2]; wx_mk false false [] [];
+          wx_mk false false [] []; wx_mk false true [] []],
+         [0; 1; 2; 3; 4], [[HEnter 1; HEnter 2]], [ex_act false], [ex_add [3]].
+  vm_compute. repeat split; reflexivity.
+Qed.
+
+(* 592: 0 Sa (Auto, Add Sb), 1 Sb (Auto), 2 Sc, 3 Exception. Add Sc; the auto
+   mutation calls Sa, Sb; SbEnter vetoes; the re-resolution with Sa alone
+   brings Sb back through Sa's Add relation: Sb is active although its own
+   Enter handler returned false *)
+Lemma vetoed_active_refuted_lemma :
+  exists (sch : schema) (order : list nat) (bs : list (list hkey)) (acts : list haction)
+         (cs : list api_call),
+    let tp := topo_sort sch order in
+    let tr := run 100 (init_st sch tp [] 3 bs 1000 acts) cs in
+    fault_free acts /\ tr_fuel_ok tr = true /\ tr_crashed tr = false /\
+    map tx_auto (tr_txs tr) = [false; true] /\ map tx_target (tr_txs tr) = [[2]; [0; 2; 1]] /\
+    map (fun h => (hl_key h, hl_ret h)) (tr_hlog tr) = [(HEnter 1, false)] /\
+    map co_active (tr_calls tr) = [[0; 2; 1]] /\
+    flat_map (vetoed_active_codes (tr_hlog tr)) (tr_txs tr) = [592%N] /\
+    c05b_codes sch tp bs tr = [592%N].
+Proof.
+  exists [wx_mk true false [1] []; wx_mk true false [] []; wx_mk false false [] [];
+          wx_mk false true [] []],
+         [0; 1; 2; 3], [[HEnter 1]], [ex_act false; ex_act false], [ex_add [2]].
+  vm_compute. repeat split; reflexivity.
+Qed.
+
+(* non-vacuity of the consultation theorem: bound Exit / Enter / state-state
+   handlers, one non-auto and one auto transition *)
+Example consulted_ok_nonvacuous :
+  let bs := [[HExit 0; HEnter 1; HTrans 0 1; HTrans 2 1; HEnter 2]; [HEnter 1; HTrans 0 2]] in
+  let tr := run 100 (init_st ex_sch [] [] 3 bs 1000 []) [ex_add [0]; ex_add [1]] in
+  tr_fuel_ok tr = true /\ map tx_auto (tr_txs tr) = [false; true; false] /\
+  map tx_accepted (tr_txs tr) = [true; true; true] /\
+  map (fun h => (hl_key h, hl_binding h)) (tr_hlog tr)
+    = [(HEnter 2, 0); (HTrans 0 2, 1); (HExit 0, 0); (HEnter 1, 0); (HEnter 1, 1);
+       (HTrans 2 1, 0); (HTrans 0 1, 0); (HTrans 0 2, 1)] /\
+  c05b_codes ex_sch [] bs tr = [].
+Proof. vm_compute. repeat split; reflexivity. Qed.
+
+(* ================================================================== *)
+(* C05d: bindings detached while an event is dispatched                *)
+(* ================================================================== *)
+
+Lemma filter_filter : forall (A : Type) (f g : A -> bool) l,
+  filter f (filter g l) = filter (fun x => g x && f x) l.
+Proof.
+  intros A f g l. induction l as [|x r IH]; [reflexivity|].
+  cbn. destruct (g x); cbn; [destruct (f x); rewrite IH; reflexivity | exact IH].
+Qed.
+
+(* the bindings still bound after the bindings [pre] have run *)
+Definition still_bound (d : list (nat * nat)) (pre bound : list nat) : list nat :=
+  filter (fun x => negb (existsb (fun i => mem x (detached_by d i)) pre)) bound.
+
+Lemma neg_dispatch_spec : forall h d veto snap bound cs b v,
+  neg_dispatch h d veto snap bound = (cs, b, v) ->
+  exists pre post, snap = pre ++ post /\ cs = map (fun i => (i, h)) pre /\
+    b = still_bound d pre bound /\
+    (v = false -> post = [] /\ forallb (fun i => negb (mem i veto)) pre = true) /\
+    (v = true -> exists pre' i, pre = pre' ++ [i] /\ mem i veto = true /\
+                  forallb (fun i => negb (mem i veto)) pre' = true).
+Proof.
+  intros h d veto snap. induction snap as [|i r IH]; intros bound cs b v H.
+  - cbn in H. inversion H; subst. exists [], []. split; [reflexivity|]. split; [reflexivity|].
+    split.
+    + unfold still_bound. cbn. symmetry. apply filter_all_true. reflexivity.
+    + split; [intros _; split; reflexivity | discriminate].
+  - cbn [neg_dispatch] in H. destruct (mem i veto) eqn:Ev.
+    + inversion H; subst. exists [i], r. split; [reflexivity|]. split; [reflexivity|]. split.
+      * unfold still_bound. apply filter_ext. intros x. cbn. rewrite orb_false_r. reflexivity.
+      * split; [discriminate|]. intros _. exists [], i. split; [reflexivity|]. split; [exact Ev | reflexivity].
+    + destruct (neg_dispatch h d veto r
+                  (filter (fun x => negb (mem x (detached_by d i))) bound)) as [[cs' b'] v'] eqn:E.
+      inversion H; subst.
+      destruct (IH _ _ _ _ E) as (pre & post & Hs & Hc & Hb & Hf & Ht).
+      exists (i :: pre), post. split; [rewrite Hs; reflexivity|]. split; [rewrite Hc; reflexivity|].
+      split.
+      * rewrite Hb. unfold still_bound. rewrite filter_filter. apply filter_ext. intros x.
+        cbn. rewrite negb_orb. reflexivity.
+      * split.
+        -- intros Hv. destruct (Hf Hv) as [Hp Ha]. split; [exact Hp|]. cbn. rewrite Ev, Ha. reflexivity.
+        -- intros Hv. destruct (Ht Hv) as (pre' & j & Hp & Hj & Ha).
+           exists (i :: pre'), j. split; [rewrite Hp; reflexivity|]. split; [exact Hj|].
+           cbn. rewrite Ev, Ha. reflexivity.
+Qed.
+
+(* the statement over the scenario of Spec/C05d.v *)
+Lemma detach_snapshot_semantics_lemma : forall (k : dcase) cs r1 r2,
+  expected_calls k = (cs, r1, r2) ->
+  exists pre post,
+    seq 0 (d_k k) = pre ++ post /\
+    cs = map (fun i => (i, 0)) pre
+         ++ (if r1 then map (fun i => (i, 1)) (still_bound (d_detach k) pre (seq 0 (d_k k))) else [])
+         ++ map (fun i => (i, 2)) (still_bound (d_detach k) pre (seq 0 (d_k k)))
+         ++ map (fun i => (i, 3)) (still_bound (d_detach k) pre (seq 0 (d_k k))) /\
+    r2 = true /\
+    (r1 = true -> post = [] /\ forallb (fun i => negb (mem i (d_veto k))) pre = true) /\
+    (r1 = false -> exists pre' i, pre = pre' ++ [i] /\ mem i (d_veto k) = true /\
+                     forallb (fun i => negb (mem i (d_veto k))) pre' = true).
+Proof.
+  intros k cs r1 r2 H. unfold expected_calls in H.
+  destruct (neg_dispatch 0 (d_detach k) (d_veto k) (seq 0 (d_k k)) (seq 0 (d_k k)))
+    as [[c1 b1] v1] eqn:E.
+  destruct (neg_dispatch_spec _ _ _ _ _ _ _ _ E) as (pre & post & Hs & Hc & Hb & Hf & Ht).
+  inversion H; subst cs r1 r2. exists pre, post. split; [exact Hs|]. split.
+  - rewrite Hc, Hb. destruct v1; reflexivity.
+  - split; [reflexivity|]. split.
+    + intros Hv. apply negb_true_iff in Hv. exact (Hf Hv).
+    + intros Hv. apply negb_false_iff in Hv. exact (Ht Hv).
+Qed.
+
+Lemma NoDup_app_parts : forall (A : Type) (l1 l2 : list A), NoDup (l1 ++ l2) -> NoDup l1 /\ NoDup l2.
+Proof.
+  intros A l1 l2 H. split.
+  - induction l1 as [|x r IH]; [constructor|]. inversion H; subst.
+    constructor; [intros Hx; apply H2; apply in_or_app; left; exact Hx | apply IH; assumption].
+  - induction l1 as [|x r IH]; [exact H|]. inversion H; subst. apply IH. assumption.
+Qed.
+
+Lemma NoDup_map_pair : forall (h : nat) l, NoDup l -> NoDup (map (fun i : nat => (i, h)) l).
+Proof.
+  intros h l H. induction H as [|x r Hn Hr IH]; [constructor|].
+  cbn. constructor; [|exact IH]. intros Hin. apply in_map_iff in Hin.
+  destruct Hin as (y & E & Hy). inversion E; subst. contradiction.
+Qed.
+
+(* every (binding, handler) pair is called at most once; every binding of the
+   snapshot gets the negotiation event exactly once unless a veto stopped it;
+   a binding detached by a called handler gets none of the later events *)
+Lemma detach_calls_properties_lemma : forall (k : dcase) cs r1 r2,
+  expected_calls k = (cs, r1, r2) ->
+  NoDup cs /\
+  (r1 = true -> forall i, i < d_k k -> In (i, 0) cs) /\
+  (forall i j h, In (i, 0) cs -> In (i, j) (d_detach k) -> h <> 0 -> ~ In (j, h) cs) /\
+  (forall i h, In (i, h) cs -> i < d_k k /\ h <= 3).
+Proof.
+  intros k cs r1 r2 H.
+  destruct (detach_snapshot_semantics_lemma k cs r1 r2 H) as (pre & post & Hs & Hc & _ & Hf & _).
+  set (sb := still_bound (d_detach k) pre (seq 0 (d_k k))) in *.
+  assert (Hndp : NoDup pre).
+  { pose proof (seq_NoDup (d_k k) 0) as Hn. rewrite Hs in Hn. apply (NoDup_app_parts _ _ _ Hn). }
+  assert (Hndb : NoDup sb) by (unfold sb, still_bound; apply NoDup_filter; apply seq_NoDup).
+  assert (Hin : forall i h, In (i, h) cs ->
+            (h = 0 /\ In i pre) \/ (h = 1 /\ In i sb) \/ (h = 2 /\ In i sb) \/ (h = 3 /\ In i sb)).
+  { intros i h Hi. rewrite Hc in Hi. apply in_app_or in Hi. destruct Hi as [Hi|Hi].
+    - apply in_map_iff in Hi. destruct Hi as (y & E & Hy). inversion E; subst. tauto.
+    - apply in_app_or in Hi. destruct Hi as [Hi|Hi].
+      + destruct r1; [|contradiction]. apply in_map_iff in Hi. destruct Hi as (y & E & Hy).
+        inversion E; subst. tauto.
+      + apply in_app_or in Hi. destruct Hi as [Hi|Hi];
+          apply in_map_iff in Hi; destruct Hi as (y & E & Hy); inversion E; subst; tauto. }
+  split; [|split; [|split]].
+  - rewrite Hc. apply NoDup_app_intro; [apply NoDup_map_pair; exact Hndp| |].
+    + apply NoDup_app_intro; [destruct r1; [apply NoDup_map_pair; exact Hndb | constructor]| |].
+      * apply NoDup_app_intro; [apply NoDup_map_pair; exact Hndb | apply NoDup_map_pair; exact Hndb|].
+        intros x Hx Hy. apply in_map_iff in Hx. destruct Hx as (a & <- & _).
+        apply in_map_iff in Hy. destruct Hy as (b & E & _). discriminate.
+      * intros x Hx Hy. destruct r1; [|contradiction].
+        apply in_map_iff in Hx. destruct Hx as (a & <- & _).
+        apply in_app_or in Hy. destruct Hy as [Hy|Hy];
+          apply in_map_iff in Hy; destruct Hy as (b & E & _); discriminate.
+    + intros x Hx Hy. apply in_map_iff in Hx. destruct Hx as (a & <- & _).
+      apply in_app_or in Hy. destruct Hy as [Hy|Hy].
+      * destruct r1; [|contradiction]. apply in_map_iff in Hy. destruct Hy as (b & E & _). discriminate.
+      * apply in_app_or in Hy. destruct Hy as [Hy|Hy];
+          apply in_map_iff in Hy; destruct Hy as (b & E & _); discriminate.
+  - intros Hr i Hi. destruct (Hf Hr) as [Hp _]. rewrite Hp, app_nil_r in Hs.
+    rewrite Hc. apply in_or_app. left. apply in_map_iff. exists i. split; [reflexivity|].
+    rewrite <- Hs. apply in_seq. lia.
+  - intros i j h Hi Hd Hh Hj.
+    destruct (Hin i 0 Hi) as [[_ Hip]|[[E _]|[[E _]|[E _]]]]; try discriminate.
+    assert (Hjb : In j sb).
+    { destruct (Hin j h Hj) as [[E _]|[[_ Y]|[[_ Y]|[_ Y]]]]; [contradiction | exact Y..]. }
+    unfold sb, still_bound in Hjb. apply filter_In in Hjb. destruct Hjb as [_ Hjb].
+    apply negb_true_iff in Hjb.
+    assert (Hex : existsb (fun i0 => mem j (detached_by (d_detach k) i0)) pre = true).
+    { apply existsb_exists. exists i. split; [exact Hip|]. apply mem_In.
+      unfold detached_by. apply in_map_iff. exists (i, j). split; [reflexivity|].
+      apply filter_In. split; [exact Hd | apply Nat.eqb_refl]. }
+    congruence.
+  - intros i h Hi.
+    assert (Hsb : forall x, In x sb -> x < d_k k).
+    { intros x Hx. unfold sb, still_bound in Hx. apply filter_In in Hx. destruct Hx as [Hx _].
+      apply in_seq in Hx. lia. }
+    assert (Hpre : forall x, In x pre -> x < d_k k).
+    { intros x Hx. assert (In x (seq 0 (d_k k))) by (rewrite Hs; apply in_or_app; left; exact Hx).
+      apply in_seq in H0. lia. }
+    destruct (Hin i h Hi) as [[-> Y]|[[-> Y]|[[-> Y]|[-> Y]]]]; split; try lia;
+      try (apply Hsb; exact Y). apply Hpre. exact Y.
+Qed.
+
+Example detach_snapshot_semantics_nonvacuous :
+  let k := {| d_k := 4; d_detach := [(0, 2); (1, 3); (2, 1)]; d_veto := []; o_dcalls := [];
+              o_res1 := true; o_res2 := true |} in
+  expected_calls k
+  = ([(0, 0); (1, 0); (2, 0); (3, 0); (0, 1); (0, 2); (0, 3)], true, true) /\
+  expected_calls {| d_k := 3; d_detach := [(0, 2)]; d_veto := [1]; o_dcalls := [];
+                    o_res1 := true; o_res2 := true |}
+  = ([(0, 0); (1, 0); (0, 2); (1, 2); (0, 3); (1, 3)], false, true).
+Proof. vm_compute. split; reflexivity. Qed.
+
+(* ================================================================== *)
+(* C07 (j) on whole runs: veto-free auto transitions pass judged_codes *)
+(* ================================================================== *)
+
+Lemma judged_nv_ok_lemma : forall sch tp hl ex bs ql acts cs fuel,
+  fault_free acts ->
+  forall t, In t (tr_txs (run fuel (init_st sch tp hl ex bs ql acts) cs)) ->
+    no_veto_in (slice (tr_hlog (run fuel (init_st sch tp hl ex bs ql acts) cs))
+                      (tx_hfrom t) (tx_hto t)) ->
+    judged_codes sch tp (tr_hlog (run fuel (init_st sch tp hl ex bs ql acts) cs)) t = [].
+Proof.
+  intros sch tp hl ex bs ql acts cs fuel F. rewrite run_unfold.
+  destruct (run_calls_top fuel (init_st sch tp hl ex bs ql acts) cs []) as [[s1 obs] ok] eqn:E.
+  cbn. intros t Ht Hnv. apply in_rev in Ht.
+  destruct (run_final_inv _ _ _ _ _ _ _ _ _ _ _ _ F E) as [I _].
+  destruct I as (I0 & I1 & _ & _ & _ & _ & Hr & _).
+  rewrite Forall_forall in Hr. destruct (Hr t Ht) as (_ & _ & _ & _ & Y).
+  rewrite I0, I1 in Y. apply Y. exact Hnv.
+Qed.
+
+Example judged_nv_ok_nonvacuous :
+  let bs := [[HEnter 1; HState 2; HAnyState]] in
+  let tr := run 100 (init_st ex_sch2 [] [] 3 bs 1000 []) [ex_add [0]] in
+  exists t, nth_error (tr_txs tr) 1 = Some t /\ tx_auto t = true /\ tx_called t = [1; 2] /\
+    tx_accepted t = true /\
+    map (fun h => (hl_key h, hl_ret h)) (slice (tr_hlog tr) (tx_hfrom t) (tx_hto t))
+      = [(HEnter 1, true); (HState 2, true); (HAnyState, true)] /\
+    judged_codes ex_sch2 [] (tr_hlog tr) t = [].
+Proof. cbv zeta. eexists. vm_compute. repeat split; reflexivity. Qed.
